@@ -43,6 +43,11 @@ type faultReader struct {
 	failAt   int  // inject errInjected once this many bytes were delivered (-1: never)
 	eofWithN bool // deliver the final bytes together with io.EOF
 	pos      int
+	// zeroAt > 0: when exactly this many bytes were delivered, one read returns (0, nil) — legal for an
+	// io.Reader ("callers should treat a return of 0 and nil as indicating that nothing happened") — and
+	// no read crosses that offset
+	zeroAt   int
+	zeroDone bool
 }
 
 func (r *faultReader) Read(p []byte) (int, error) {
@@ -59,6 +64,10 @@ func (r *faultReader) Read(p []byte) (int, error) {
 		}
 		return 0, io.EOF
 	}
+	if r.zeroAt > 0 && r.pos == r.zeroAt && !r.zeroDone {
+		r.zeroDone = true
+		return 0, nil
+	}
 	n := len(p)
 	if len(r.chunks) > 0 {
 		c := r.chunks[r.ci%len(r.chunks)]
@@ -73,6 +82,9 @@ func (r *faultReader) Read(p []byte) (int, error) {
 	if r.pos+n > limit {
 		n = limit - r.pos
 	}
+	if r.zeroAt > 0 && !r.zeroDone && r.pos < r.zeroAt && r.pos+n > r.zeroAt {
+		n = r.zeroAt - r.pos
+	}
 	copy(p, r.data[r.pos:r.pos+n])
 	r.pos += n
 	if r.pos >= limit && r.eofWithN && !(r.failAt >= 0) {
@@ -82,11 +94,15 @@ func (r *faultReader) Read(p []byte) (int, error) {
 }
 
 type c06Fault struct {
-	class  string
-	served []byte // what storage delivers (complete)
-	rd     func() io.Reader
-	openEr bool
-	rdErr  bool // a read error is injected
+	// lenient: correct data delivered with a (0, nil) read in the middle. The property only forbids returning
+	// unverified data; refmt's byte reader (a dependency) takes such a read for a zero byte and the decode fails,
+	// which is a refused load of good data, not a breach: either outcome is accepted, wrong data never
+	lenient bool
+	class   string
+	served  []byte // what storage delivers (complete)
+	rd      func() io.Reader
+	openEr  bool
+	rdErr   bool // a read error is injected
 }
 
 var c06Loaders = []string{"Load", "LoadRaw", "LoadPlusRaw", "Fill"}
@@ -144,6 +160,32 @@ func c06Check(c C06Case, rec *evid.Rec) error {
 		b := append(append([]byte{}, block...), e...)
 		faults = append(faults, c06Fault{class: "extend", served: b, rd: plain(b)})
 	}
+	// an extended block delivered so that the decoder's own reads end exactly at the old end: chunk = block
+	// length (with and without EOF riding on the last bytes), byte-wise, and with a (0, nil) read at the old end
+	if len(block) > 0 {
+		for _, e := range [][]byte{{0x00}, {' '}, append([]byte{}, block...), c.Tail} {
+			if len(e) == 0 {
+				continue
+			}
+			b := append(append([]byte{}, block...), e...)
+			bl := len(block)
+			for _, mk := range []func() io.Reader{
+				func() io.Reader { return &faultReader{data: b, failAt: -1, chunks: []int{bl}} },
+				func() io.Reader { return &faultReader{data: b, failAt: -1, chunks: []int{bl}, eofWithN: true} },
+				func() io.Reader { return &faultReader{data: b, failAt: -1, chunks: []int{1}} },
+				func() io.Reader { return &faultReader{data: b, failAt: -1, zeroAt: bl} },
+				func() io.Reader { return &faultReader{data: b, failAt: -1, zeroAt: bl, chunks: []int{bl}} },
+				func() io.Reader { return &faultReader{data: b, failAt: -1, zeroAt: bl, chunks: []int{1}} },
+			} {
+				faults = append(faults, c06Fault{class: "extend+chunking", served: b, rd: mk})
+			}
+		}
+		// the correct block with a (0, nil) read after EVERY offset must load
+		for k := 1; k <= len(block); k++ {
+			k := k
+			faults = append(faults, c06Fault{class: "zero-read", lenient: true, served: block, rd: func() io.Reader { return &faultReader{data: block, failAt: -1, zeroAt: k} }})
+		}
+	}
 	if otherBlock != nil && !bytes.Equal(otherBlock, block) {
 		faults = append(faults, c06Fault{class: "substitute", served: otherBlock, rd: plain(otherBlock)})
 	}
@@ -169,7 +211,17 @@ func c06Check(c C06Case, rec *evid.Rec) error {
 	}
 	faults = append(faults, c06Fault{class: "openerror", openEr: true})
 
-	blockHash := val.HashBytes(append(block, c.LP.String()...))
+	// results of good loads are kept across everything that follows: what a load returned must still hash to
+	// its link after any number of later loads (of other, damaged or failing data) through the same link system
+	keptRaw, kerr := lsys.LoadRaw(linking.LinkContext{Ctx: context.Background()}, lnk)
+	if kerr != nil {
+		return fmt.Errorf("LoadRaw of the block just stored failed: %w", kerr)
+	}
+	keptNode, keptRaw2, kerr := lsys.LoadPlusRaw(linking.LinkContext{Ctx: context.Background()}, lnk, basicnode.Prototype.Any)
+	if kerr != nil {
+		return fmt.Errorf("LoadPlusRaw of the block just stored failed: %w", kerr)
+	}
+	blockHash := val.HashBytes(append(append([]byte{}, block...), c.LP.String()...))
 	for fi, f := range faults {
 		f := f
 		legit := false
@@ -233,6 +285,13 @@ func c06Check(c C06Case, rec *evid.Rec) error {
 					return fmt.Errorf("%s: hash mismatch reported but data was returned as well", where)
 				}
 			case bytes.Equal(f.served, block):
+				if err != nil && f.lenient {
+					if got != nil || raw != nil {
+						return fmt.Errorf("%s: a failed load still returned data", where)
+					}
+					rec.Class("zero-read:refused")
+					break
+				}
 				if err != nil {
 					return fmt.Errorf("%s: correct data in another chunking was refused: %v", where, err)
 				}
@@ -258,7 +317,13 @@ func c06Check(c C06Case, rec *evid.Rec) error {
 			_ = li
 		}
 	}
-	for _, cl := range []string{"bitflip", "truncate", "extend", "substitute", "readerror", "chunking", "openerror"} {
+	if !bytes.Equal(keptRaw, block) || !bytes.Equal(keptRaw2, block) {
+		return fmt.Errorf("raw bytes returned by an earlier LoadRaw / LoadPlusRaw of block %x changed after later loads: now %x / %x", block, keptRaw, keptRaw2)
+	}
+	if kv, rerr := nodes.Read(keptNode); rerr != nil || !val.Equal(kv, expect, val.Ordered) {
+		return fmt.Errorf("the node returned by an earlier LoadPlusRaw of block %x changed after later loads: %s (err %v)", block, val.Diff(kv, expect), rerr)
+	}
+	for _, cl := range []string{"bitflip", "truncate", "extend", "extend+chunking", "zero-read", "substitute", "readerror", "chunking", "openerror"} {
 		for _, l := range c06Loaders {
 			rec.Case(val.HashBytes([]byte(fmt.Sprintf("%x|%s|%s", blockHash, cl, l))), true)
 		}
@@ -298,7 +363,7 @@ func drawSmallCodecValue(t *rapid.T, codec uint64, label string) val.V {
 
 var c06Part = evid.Part[C06Case]{
 	Prop: "C06", Name: "loadfaults", Quick: 320, Thorough: 8000,
-	Rule: "per drawn block (small value × 5 codecs × 10 hash functions incl. identity and 1-2 byte truncated digests; blocks ≤160 B): EVERY single-bit flip, EVERY truncation length, extensions (1 byte, whitespace, duplicate item, random tail), substitution by another block / empty block, a read error after EVERY offset, EVERY fixed chunk size with and without (n>0, EOF), a random chunking, an open error — each against Load, LoadRaw, LoadPlusRaw and Fill; evaluations counts every (fault, loader) execution; distinct_nontrivial counts (block, fault class, loader) triples, each class being enumerated completely for its block",
+	Rule: "per drawn block (small value × 5 codecs × 10 hash functions incl. identity and 1-2 byte truncated digests; blocks ≤160 B): EVERY single-bit flip, EVERY truncation length, extensions (1 byte, whitespace, duplicate item, random tail; also delivered in chunks ending at the old end, byte-wise, and with a (0, nil) read at the old end), a (0, nil) read after EVERY offset of the correct block, substitution by another block / empty block, a read error after EVERY offset, EVERY fixed chunk size with and without (n>0, EOF), a random chunking, an open error — each against Load, LoadRaw, LoadPlusRaw and Fill; evaluations counts every (fault, loader) execution; distinct_nontrivial counts (block, fault class, loader) triples, each class being enumerated completely for its block",
 	Gen: func(t *rapid.T) C06Case {
 		lp := drawC06LP(t)
 		return C06Case{LP: lp, V: drawSmallCodecValue(t, lp.Codec, "v"), Other: drawSmallCodecValue(t, lp.Codec, "other"),
